@@ -103,6 +103,13 @@ CHECKS = {
           "assignment-operator misuses) must raise the corresponding pymtl3 error class under every order.",
           "Where a defect necessarily coincides with another (e.g. writing a child's driven output) either corresponding class is accepted.",
           "DESIGN.md 3/C09"),
+  "C14": ("exploration",
+          "property-based testing (Hypothesis): generated hierarchy sources; every object's repr is evaluated back with eval and compared by identity, metadata compared with the name's structure",
+          "Hierarchies with ragged nested lists of components and signals, nested/listed interfaces, method ports, struct signals with nested "
+          "and list fields, and materialised field/slice/slice-of-field/list-element signals: names are unique, evaluate back to the very "
+          "object, parent/host/level/top-level-signal/field-name metadata agree with the name, and a second elaboration yields the same names.",
+          "Interface.inverse() is not generated (unused in the repo; it fails elaboration independently of naming).",
+          "DESIGN.md 3/C14"),
 }
 
 NOT_YET = {}
